@@ -86,11 +86,11 @@ CFG = {
         "imlfn_contracts", "C08_imlfn_converges", "C08_eqdc_inv_within", "krovak_contracts", "C08_krovak_lat_fixed_unique",
         "krovakLoop_converges", "C08_krovak_lat_converges", "C08_krovak_inv_within", "logTs_sin_lipschitz",
         "C08_merc_ell_reproject_within", "mlfn_lipschitz", "C08_eqdc_reproject_within", "C08_lcc_reproject_within",
-        "C08_utm_sphere_inv",
+        "C08_utm_sphere_inv", "C08_tmerc_ell_central_meridian_inv",
         # the 7-parameter stage: exact residual of the small-angle inverse and its bound (the judge's a-priori bound)
         "C08_helmert_residual", "C08_helmert_residual_bound", "rot_sq_le_sum_sq", "C08_helmert_not_identity",
         # the model of the whole NewTransform closure, both directions composed (routes without a datum shift)
-        "datumTransform_nodatum", "C08_transform_roundtrip", "C08_transform_roundtrip_exact", "C08_transform_merc_sphere"]] + [
+        "datumTransform_nodatum", "C08_transform_roundtrip", "C08_transform_roundtrip_exact", "C08_transform_merc_sphere", "C08_constructors_ok"]] + [
         # tie T1: model = definitions regenerated from the current Go source (rfl)
         T + "Ties." + n for n in ["tie_initMerc", "tie_fwdMerc", "tie_invMerc", "tie_initLcc", "tie_fwdLcc", "tie_invLcc",
                                   "tie_initAea", "tie_fwdAea", "tie_invAea", "tie_aeaPhi1zStep", "tie_initEqdc", "tie_fwdEqdc",
